@@ -67,6 +67,9 @@ def cases(shard, nshards, seed, tier):
 SOURCES = ["tests/1A1T_1_B.cif", "tests/1E7K_1_C.cif", "tests/184D.cif", "tests/4WTI_1_T-P.cif", "tests/1DFU_1_M-N.cif", "tests/1HMH_1_E.cif", "tests/6INQ.cif"]
 
 
+STANDARD = ("A", "C", "G", "U", "DA", "DC", "DG", "DT")
+
+
 def make_table(rng):
     fn = rng.choice(SOURCES)
     s = gen3d.load(fn, 1)
@@ -160,6 +163,21 @@ def make_table(rng):
     for i, r in enumerate(rows, 1):
         r["serial"] = i + off
         r["alt"] = None
+    # an incompletely built base or sugar: one atom of a glycosidic-torsion definition is absent from one residue, so that
+    # residue has no chi (in particular a purine without N9 or C4 has none, whatever other atoms it has)
+    if rng.random() < 0.25:
+        ks = sorted({(r["chain"], r["resseq"], r["icode"]) for r in rows if r["resname"] in STANDARD}, key=str)
+        if ks:
+            k = rng.choice(ks)
+            dead = rng.choice(["N9", "C4", "N9", "C4", "N1", "C2", "O4'", "C1'"])
+            rows = [r for r in rows if not ((r["chain"], r["resseq"], r["icode"]) == k and r["name"] == dead)]
+            for i, r in enumerate(rows, 1):
+                r["serial"] = i + off
+    # atom names in the spelling used before the 2007 remediation (and by several modelling tools to this day): the
+    # prime written as an asterisk.  Names are data: every reader reports them as written, from both formats
+    if rng.random() < 0.1:
+        for r in rows:
+            r["name"] = r["name"].replace("'", "*")
     # zero occupancy is an ordinary occupancy (atoms modelled without density): some, never all, atoms carry it
     if rng.random() < 0.3:
         for r in rng.sample(rows, max(1, len(rows) // 12)):
@@ -336,6 +354,7 @@ def run_case(case, rec):
         rec.count("note:atoms_list-sorted-in-place-before-torsions")
     # ---- |chi| -----------------------------------------------------------------
     chis = {}
+    listed = {}
     for n in ("v1-pdb", "v1-cif"):
         for k, r in objs[n].items():
             try:
@@ -351,10 +370,30 @@ def run_case(case, rec):
             rec.violation("chi.no-crash", det({"reader": n, "exception": repr(e)[:200]}), mechanism=f"crash:{type(e).__name__}")
             continue
         for _, row in tab.iterrows():
+            listed.setdefault(n, set()).add((str(row["chain_id"]), int(row["residue_number"]), row["insertion_code"] if isinstance(row["insertion_code"], str) else None))
             c = row.get("chi")
             if c is not None and not (isinstance(c, float) and math.isnan(c)):
                 k = (str(row["chain_id"]), int(row["residue_number"]), row["insertion_code"] if isinstance(row["insertion_code"], str) else None)
                 chis.setdefault(k, {})[n] = abs(float(c))
+    # which residues have a glycosidic torsion at all: for a standard residue the four atoms of its own definition
+    # decide, and every reader that lists the residue must agree (the table-level reader lists residues of connected
+    # segments only)
+    bad_has = None
+    nhas = 0
+    for k in order:
+        if amap[k]["name"] not in STANDARD:
+            continue
+        names = ["O4'", "C1'", "N9", "C4"] if amap[k]["name"].lstrip("D") in ("A", "G") else ["O4'", "C1'", "N1", "C2"]
+        want_has = all(x in amap[k]["atoms"] for x in names)
+        got_has = {n: n in chis.get(k, {}) for n in ("v1-pdb", "v1-cif")}
+        for n in ("v2-pdb", "v2-cif"):
+            if k in listed.get(n, ()):
+                got_has[n] = n in chis.get(k, {})
+        nhas += 1
+        if any(v != want_has for v in got_has.values()):
+            bad_has = {"residue": k, "name": amap[k]["name"], "atoms-of-its-definition-present": want_has, "readers-report-chi": got_has, "atoms": sorted(amap[k]["atoms"])}
+    if nhas:
+        rec.check("chi.same-residues-have-one", bad_has is None, lambda: det(bad_has))
     bad_chi = None
     for k, d in chis.items():
         names = ["O4'", "C1'", "N9", "C4"] if "N9" in amap[k]["atoms"] and amap[k]["name"].upper().lstrip("D") in ("A", "G") else ["O4'", "C1'", "N1", "C2"]
